@@ -392,9 +392,9 @@ fn assign_node_parents(db: &mut (impl MerkleDBBase + ?Sized), nodes: &mut [Merkl
 //@ rules R4d
 //@ contract
     requires old(db).inv(), len == len_of(H_int(nview(children@))),
-    ensures final(db).inv(), /*@C06*/ r.hash == H_int(nview(children@)), /*@C06*/ r.len == len,
+    ensures final(db).inv(), /*@C06,C02*/ r.hash == H_int(nview(children@)), /*@C06,C02*/ r.len == len,
 //@ loop 1
-        invariant db.inv(),
+        invariant /*@AUX*/ db.inv(),
 //@ end
 
 //@ extract merkledb/src/internal_methods.rs fn merge_one_level
@@ -402,18 +402,22 @@ fn assign_node_parents(db: &mut (impl MerkleDBBase + ?Sized), nodes: &mut [Merkl
 //@ rules R4a R4f
 //@ contract
     requires old(db).inv(), len_ok(nview(nodes@)), len_ok(level(nview(nodes@))),
-    ensures final(db).inv(), r.0@.len() == nodes@.len(),
-        /*@C06*/ nview(r.1@) == level(nview(nodes@)),
+    ensures final(db).inv(), /*@AUX*/ r.0@.len() == nodes@.len(),
+        /*@C06,C02*/ nview(r.1@) == level(nview(nodes@)),
 //@ after `let mut cur_children_total_len: usize = 0;`
     let ghost s = nview(nodes@);
     proof { assert(nview(parents@) =~= Seq::<HL>::empty()); assert(nview(parents@) + level_acc(s, 0, 0) =~= level(s)); }
 //@ loop 1
         invariant
-            s == nview(nodes@), total_children == nodes@.len(), db.inv(),
-            cur_children_start_idx <= idx, idx == nodes@.len() ==> cur_children_start_idx == idx,
-            parent_of_node@.len() == nodes@.len(),
-            cur_children_total_len == sum_n(s.subrange(cur_children_start_idx as int, idx as int)),
-            nview(parents@) + level_acc(s, cur_children_start_idx as int, idx as int) == level(s),
+            s == nview(nodes@), /*@AUX*/ total_children == nodes@.len(), /*@AUX*/ db.inv(),
+            /*@AUX*/ cur_children_start_idx <= idx,
+            // cut positions == spec cuts: no group is left open when the list ends
+            /*@C06,C02*/ idx == nodes@.len() ==> cur_children_start_idx == idx,
+            /*@AUX*/ parent_of_node@.len() == nodes@.len(),
+            // the length handed to the next parent is the sum over the open group so far
+            /*@C06,C02*/ cur_children_total_len == sum_n(s.subrange(cur_children_start_idx as int, idx as int)),
+            // parents built so far ++ spec parents of the rest (open group from start, scanned to idx) == spec level
+            /*@C06,C02*/ nview(parents@) + level_acc(s, cur_children_start_idx as int, idx as int) == level(s),
             len_ok(s), len_ok(level_acc(s, cur_children_start_idx as int, idx as int)),
 //@ before `cur_children_total_len += node.len();`
         proof {
@@ -424,16 +428,18 @@ fn assign_node_parents(db: &mut (impl MerkleDBBase + ?Sized), nodes: &mut [Merkl
 //@ before `let parent_node =`
             let ghost g = s.subrange(cur_children_start_idx as int, idx + 1);
             let ghost old_parents = nview(parents@);
-            proof { assert(nview(nodes@.subrange(cur_children_start_idx as int, idx + 1)) =~= g); }
+            // carries the property (not a convenience): the slice handed to node_from_children is exactly the spec group g
+            proof { /*@C06,C02*/ assert(nview(nodes@.subrange(cur_children_start_idx as int, idx + 1)) =~= g); }
 //@ after `parents.push(parent_node);`
             proof {
-                assert(nview(parents@) =~= old_parents + seq![parent(g)]);
+                // carries the property: the node just pushed is the spec parent (H_int(g), sum len) of the closed group
+                /*@C06,C02*/ assert(nview(parents@) =~= old_parents + seq![parent(g)]);
                 assert((old_parents + seq![parent(g)]) + level_acc(s, idx + 1, idx + 1) =~= old_parents + (seq![parent(g)] + level_acc(s, idx + 1, idx + 1)));
             }
 //@ loop 2
                 invariant
-                    parent_of_node@.len() == nodes@.len(), vx_last == idx, idx < nodes@.len(),
-                    cur_children_start_idx <= ch_index <= vx_last,
+                    /*@AUX*/ parent_of_node@.len() == nodes@.len(), /*@AUX*/ vx_last == idx, /*@AUX*/ idx < nodes@.len(),
+                    /*@AUX*/ cur_children_start_idx <= ch_index <= vx_last,
                 decreases (vx_last - ch_index) + (if vx_more { 1int } else { 0int }),
 //@ after `cur_children_start_idx = idx + 1;`
             proof { assert(s.subrange(idx + 1, idx + 1) =~= Seq::<HL>::empty()); }
@@ -447,14 +453,16 @@ fn assign_node_parents(db: &mut (impl MerkleDBBase + ?Sized), nodes: &mut [Merkl
     // a one-element list is returned as is: the node store is not consulted (only attributes are written)
     requires nodes@.len() != 1 ==> old(db).inv() && consistent(nview(nodes@)),
     ensures old(db).inv() ==> final(db).inv(),
-        nodes@.len() >= 1,
-        /*@C06*/ ret.hl() == root(nview(nodes@)),
+        /*@AUX*/ nodes@.len() >= 1,
+        /*@C06,C02*/ ret.hl() == root(nview(nodes@)),
         nodes@.len() == 1 ==> ret == nodes@[0],
 //@ body-start
     let ghost s0 = nview(nodes@); let ghost nodes0 = nodes@;
 //@ loop 1
-        invariant nodes@.len() >= 1, nodes@.len() != 1 ==> db.inv() && consistent(nview(nodes@)), root(nview(nodes@)) == root(s0),
-            nodes0.len() >= 1, old(db).inv() ==> db.inv(), nodes0.len() != 1 ==> old(db).inv(),
+        invariant /*@AUX*/ nodes@.len() >= 1, nodes@.len() != 1 ==> db.inv() && consistent(nview(nodes@)),
+            // the current level has the same root as the input list
+            /*@C06,C02*/ root(nview(nodes@)) == root(s0),
+            /*@AUX*/ nodes0.len() >= 1, /*@AUX*/ old(db).inv() ==> db.inv(), /*@AUX*/ nodes0.len() != 1 ==> old(db).inv(),
             s0 == nview(nodes0), s0.len() == 1 ==> nodes@ == nodes0,
         decreases nodes@.len(),
 //@ before `let (parent_of_node, mut parents)`
@@ -478,13 +486,13 @@ trait MerkleDBHighLevelMethodsV2: MerkleDBBase {
 //@ ret r
 //@ contract
         requires old(self).inv(), consistent(nview(nodes@)),
-        ensures final(self).inv(), /*@C06*/ r.hl() == root(nview(nodes@)),
+        ensures final(self).inv(), /*@C06,C02*/ r.hl() == root(nview(nodes@)),
 //@ end
 //@ extract merkledb/src/merkledb_highlevel_v2.rs in `MerkleDBHighLevelMethodsV2` fn merge_to_cas
 //@ ret r
 //@ contract
         requires old(self).inv(), consistent(nview(nodes@)),
-        ensures final(self).inv(), /*@C06*/ r.hl() == root(nview(nodes@)),
+        ensures final(self).inv(), /*@C06,C02*/ r.hl() == root(nview(nodes@)),
 //@ end
 }
 
@@ -566,14 +574,104 @@ impl MerkleMemDB {
 //@ end
 }
 
-struct MerkleDBError { _p: u8 }
+enum MerkleDBError { Other(String) }
 type Result<T> = std::result::Result<T, MerkleDBError>;
-// ASSUMED BOUNDARY (aggregate_hashes.rs:47-54): blake3 keyed hash of the 32 hash bytes under the salt
-uninterp spec fn salted(h: MerkleHash, salt: [u8; 32]) -> MerkleHash;
+
+// ---- keyed hashes over the 32-byte form: `with_salt` (file hash, C03/C02) and `range_hash_from_chunks` (per-segment verification
+// hash, C02).  TRUSTED: blake3 itself (`blake3_keyed`, uninterpreted) and the byte form of DataHash (K-HASHBYTES) ------------------
+pub uninterp spec fn blake3_keyed(key: Seq<u8>, data: Seq<u8>) -> Seq<u8>;
+// the 32-byte form of a hash: the four words in order, each little-endian (`transmute` on a little-endian target; K-HASHBYTES)
+spec fn hash_bytes(h: MerkleHash) -> Seq<u8> {
+    vstd::bytes::spec_u64_to_le_bytes(h.0[0]) + vstd::bytes::spec_u64_to_le_bytes(h.0[1])
+        + vstd::bytes::spec_u64_to_le_bytes(h.0[2]) + vstd::bytes::spec_u64_to_le_bytes(h.0[3])
+}
+pub closed spec fn hash_from_bytes(b: Seq<u8>) -> MerkleHash {
+    DataHash([vstd::bytes::spec_u64_from_le_bytes(b.subrange(0, 8)), vstd::bytes::spec_u64_from_le_bytes(b.subrange(8, 16)),
+              vstd::bytes::spec_u64_from_le_bytes(b.subrange(16, 24)), vstd::bytes::spec_u64_from_le_bytes(b.subrange(24, 32))])
+}
+spec fn concat_hash_bytes(hs: Seq<MerkleHash>) -> Seq<u8> decreases hs.len() {
+    if hs.len() == 0 { Seq::<u8>::empty() } else { concat_hash_bytes(hs.drop_last()) + hash_bytes(hs.last()) }
+}
+// the fixed verification key, written out independently of the extracted constant
+spec fn verification_key() -> Seq<u8> {
+    seq![127u8, 24u8, 87u8, 214u8, 206u8, 86u8, 237u8, 102u8, 18u8, 127u8, 249u8, 19u8, 231u8, 165u8, 195u8, 243u8, 164u8, 205u8, 38u8, 213u8,
+         181u8, 219u8, 73u8, 230u8, 65u8, 36u8, 152u8, 127u8, 40u8, 251u8, 148u8, 195u8]
+}
+// DEFINITIONS shared with an independent (server-side) validator:
+//   salted file hash        = from_bytes(blake3_keyed(salt, bytes(hash)))
+//   segment verification    = from_bytes(blake3_keyed(VERIFICATION_KEY, bytes(h_0) ++ bytes(h_1) ++ ...))
+spec fn salted(h: MerkleHash, salt: [u8; 32]) -> MerkleHash { hash_from_bytes(blake3_keyed(salt@, hash_bytes(h))) }
+spec fn range_hash_def(hs: Seq<MerkleHash>) -> MerkleHash { hash_from_bytes(blake3_keyed(verification_key(), concat_hash_bytes(hs))) }
+
+pub assume_specification<T: Clone> [<[T]>::to_vec] (s: &[T]) -> (r: Vec<T>)
+    ensures r@.len() == s@.len(), forall|i: int| 0 <= i < s@.len() ==> cloned::<T>(#[trigger] s@[i], r@[i]);
+// R11 stub of the blake3 crate under the same path
+mod blake3 {
+    use super::*;
+    #[verifier::external_body]
+    pub struct Hash { _p: u8 }
+    impl Hash {
+        pub uninterp spec fn bytes(&self) -> Seq<u8>;
+        #[verifier::external_body]
+        pub fn as_bytes(&self) -> (r: &[u8; 32]) ensures r@ == self.bytes() { unimplemented!() }
+    }
+    #[verifier::external_body]
+    pub fn keyed_hash(key: &[u8; 32], input: &[u8]) -> (r: Hash) ensures r.bytes() == blake3_keyed(key@, input@) { unimplemented!() }
+}
+pub struct DataHashBytesParseError { _p: u8 }
+impl DataHash {
+    // ASSUMED (data_hash.rs:190-192, transmute of the words; K-HASHBYTES)
+    #[verifier::external_body]
+    fn as_bytes(&self) -> (r: &[u8]) ensures r@ == hash_bytes(*self) { unimplemented!() }
+}
+// ASSUMED (data_hash.rs:65-69 transmute_copy; 194-206 copy_nonoverlapping after a length check; K-HASHBYTES)
+impl From<&[u8; 32]> for DataHash {
+    #[verifier::external_body]
+    fn from(value: &[u8; 32]) -> (r: Self) ensures r == hash_from_bytes(value@) { unimplemented!() }
+}
+impl TryFrom<&[u8]> for DataHash {
+    type Error = DataHashBytesParseError;
+    #[verifier::external_body]
+    fn try_from(value: &[u8]) -> (r: std::result::Result<Self, DataHashBytesParseError>)
+        ensures value@.len() == 32 ==> r == std::result::Result::<DataHash, DataHashBytesParseError>::Ok(hash_from_bytes(value@)),
+            value@.len() != 32 ==> r is Err,
+    { unimplemented!() }
+}
+// R7 outline of `.map_err(|_| MerkleDBError::Other("fail to salt a MerkleHash".to_owned()))` (`_` closure parameter, String)
 #[verifier::external_body]
-fn with_salt(hash: &MerkleHash, salt: &[u8; 32]) -> (r: Result<MerkleHash>)
-    ensures match r { Ok(h) => h == salted(*hash, *salt), Err(_) => true }
-{ unimplemented!() }
+fn vx_map_err_salt(res: std::result::Result<MerkleHash, DataHashBytesParseError>) -> (o: Result<MerkleHash>)
+    ensures res is Ok ==> o == Result::<MerkleHash>::Ok(res->Ok_0), res is Err ==> o is Err,
+{ res.map_err(|_| MerkleDBError::Other("fail to salt a MerkleHash".to_owned())) }
+
+//@ extract merkledb/src/aggregate_hashes.rs fn with_salt
+//@ ret r
+//@ subst `MerkleHash::try_from(salted_hash.as_bytes().as_slice()) .map_err(|_| MerkleDBError::Other("fail to salt a MerkleHash".to_owned()))` => `vx_map_err_salt(MerkleHash::try_from(salted_hash.as_bytes().as_slice()))` :: R7 outline of the error-mapping closure only (`_` parameter and String construction are outside Verus); the conversion call stays
+//@ contract
+    ensures /*@C03,C02,C06*/ r == Result::<MerkleHash>::Ok(salted(*hash, *salt)),
+//@ end
+
+//@ extract mdb_shard/src/chunk_verification.rs const VERIFICATION_KEY
+//@ end
+//@ extract mdb_shard/src/chunk_verification.rs fn range_hash_from_chunks
+//@ ret r
+//@ rules R4g
+//@ contract
+    ensures /*@C02,C06*/ r == range_hash_def(chunks@),
+//@ loop 1
+        invariant /*@AUX*/ vx_i <= chunks@.len(),
+            // bytes gathered so far == the 32-byte forms of the chunk hashes so far, in order
+            /*@C02,C06*/ vx_v@ == concat_hash_bytes(chunks@.subrange(0, vx_i as int)),
+//@ after `let mut vx_f = hash.as_bytes().to_vec();`
+            proof {
+                assert(chunks@.subrange(0, vx_i + 1).drop_last() =~= chunks@.subrange(0, vx_i as int));
+                /*@C02,C06*/ assert(vx_f@ == hash_bytes(chunks@[vx_i as int]));
+            }
+//@ before `let range_hash =`
+    proof {
+        assert(chunks@.subrange(0, chunks@.len() as int) =~= chunks@);
+        /*@C02,C06*/ assert(VERIFICATION_KEY@ =~= verification_key());
+    }
+//@ end
 
 spec fn cview(c: Seq<(MerkleHash, usize)>) -> Seq<HL> { Seq::new(c.len(), |i: int| HL { h: c[i].0, n: c[i].1 as int }) }
 // the aggregate hash of a chunk list per the published construction: the all-zero hash for the empty list, else the tree root
@@ -586,13 +684,15 @@ spec fn agg_is(s: Seq<HL>, r: MerkleHash) -> bool { if s.len() == 0 { is_zero(r)
     requires len_of(zero_hash()) == 0, chunks@.len() > 0 ==> consistent(cview(chunks@)),
     ensures /*@C06,C02*/ agg_is(cview(chunks@), r),
 //@ loop 1
-        invariant mdb.inv(), len_ok(cview(chunks@)), vx_v@.len() == vx_i,
-            forall|j: int| 0 <= j < vx_i ==> (#[trigger] vx_v@[j]).hl() == cview(chunks@)[j],
+        invariant /*@AUX*/ mdb.inv(), len_ok(cview(chunks@)), /*@AUX*/ vx_v@.len() == vx_i,
+            // leaves built so far == the chunk list prefix, in order
+            /*@C06,C02*/ forall|j: int| 0 <= j < vx_i ==> (#[trigger] vx_v@[j]).hl() == cview(chunks@)[j],
 //@ before `vx_v.push(`
             proof { assert(cview(chunks@)[vx_i as int].n == len_of(cview(chunks@)[vx_i as int].h)); }
 //@ before `let m =`
     proof {
-        assert(nview(nodes@) =~= cview(chunks@));
+        // carries the property: the node list merged is exactly the chunk list
+        /*@C06,C02*/ assert(nview(nodes@) =~= cview(chunks@));
         assert(nodes@.subrange(0, nodes@.len() as int) =~= nodes@);
     }
 //@ end
@@ -607,17 +707,20 @@ spec fn agg_is(s: Seq<HL>, r: MerkleHash) -> bool { if s.len() == 0 { is_zero(r)
             Ok(h) => if chunks@.len() == 0 { is_zero(h) } else { h == salted(root(cview(chunks@)).h, *salt) },
             Err(_) => true,
         },
+        r is Ok,
         // taken from the property, not from the code: "different salts give different hashes for the same bytes" needs the
         // hash of EVERY chunk list to be a salted value; the non-empty case is the clause above, this is the empty file
         /*@C03*/ (chunks@.len() == 0 && r is Ok) ==> exists|base: MerkleHash| r->Ok_0 == #[trigger] salted(base, *salt),
 //@ loop 1
-        invariant mdb.inv(), len_ok(cview(chunks@)), vx_v@.len() == vx_i,
-            forall|j: int| 0 <= j < vx_i ==> (#[trigger] vx_v@[j]).hl() == cview(chunks@)[j],
+        invariant /*@AUX*/ mdb.inv(), len_ok(cview(chunks@)), /*@AUX*/ vx_v@.len() == vx_i,
+            // leaves built so far == the chunk list prefix, in order
+            /*@C06,C02,C03*/ forall|j: int| 0 <= j < vx_i ==> (#[trigger] vx_v@[j]).hl() == cview(chunks@)[j],
 //@ before `vx_v.push(`
             proof { assert(cview(chunks@)[vx_i as int].n == len_of(cview(chunks@)[vx_i as int].h)); }
 //@ before `let m =`
     proof {
-        assert(nview(nodes@) =~= cview(chunks@));
+        // carries the property: the node list merged is exactly the chunk list
+        /*@C06,C02,C03*/ assert(nview(nodes@) =~= cview(chunks@));
         assert(nodes@.subrange(0, nodes@.len() as int) =~= nodes@);
     }
 //@ end
@@ -712,17 +815,18 @@ trait MerkleDBHighLevelMethodsV1: MerkleDBBase {
         requires old(self).inv(), chunk@.len() > 0 ==> consistent(chview(chunk@)),
         ensures
             /*@C06*/ agg_is(chview(chunk@), r),
-            chunk@.len() == 0 ==> final(staging).file_roots@ == old(staging).file_roots@,
+            /*@AUX*/ chunk@.len() == 0 ==> final(staging).file_roots@ == old(staging).file_roots@,
             chunk@.len() > 0 ==> final(staging).file_roots@.len() == old(staging).file_roots@.len() + 1
                 && final(staging).file_roots@.drop_last() == old(staging).file_roots@
                 && /*@C06*/ final(staging).file_roots@.last().hash == r,
 //@ loop 1
-            invariant self.inv(), len_ok(chview(chunk@)), vx_v@.len() == vx_i,
-                forall|j: int| 0 <= j < vx_i ==> (#[trigger] vx_v@[j]).hl() == chview(chunk@)[j],
+            invariant /*@AUX*/ self.inv(), len_ok(chview(chunk@)), /*@AUX*/ vx_v@.len() == vx_i,
+                /*@C06*/ forall|j: int| 0 <= j < vx_i ==> (#[trigger] vx_v@[j]).hl() == chview(chunk@)[j],
 //@ before `vx_v.push(`
                 proof { assert(chview(chunk@)[vx_i as int].n == len_of(chview(chunk@)[vx_i as int].h)); }
 //@ before `let mut nodes_without_cas_entry`
-        proof { assert(nview(ch@) =~= chview(chunk@)); }
+        // carries the property: the node list merged is exactly the validator's chunk list
+        proof { /*@C06*/ assert(nview(ch@) =~= chview(chunk@)); }
 //@ after `staging.file_roots.push(file_root);`
         proof { assert(staging.file_roots@.drop_last() =~= old(staging).file_roots@); }
 //@ end
